@@ -77,17 +77,21 @@ def main():
                     if any(f" {mname}::run()" in line for mname in mods): continue
                     out_lines.append(line)
                 open(path, "w").write("\n".join(out_lines) + "\n")
+    otel_runs = 0
     for s in shards:
         if not shard_ok.get(s): continue
-        out = subprocess.run([f"{target}/debug/{s}"], capture_output=True, text=True, timeout=120)
-        if out.returncode != 0:
-            failures.append(("C17-run-crashed", f"{s}: exit {out.returncode}: {out.stderr[-300:]}"))
-            continue
-        for line in out.stdout.splitlines():
-            m = re.match(r"RESULT (\d+) (\[.*\])$", line)
-            if m:
-                k = int(m.group(1)); fl = json.loads(m.group(2)) if m.group(2) != "[]" else []
-                results[k] = fl
+        # two tracing regimes, one process each (tracing caches callsite interest process-wide)
+        for regime, extra in (("", []), ("[OpenTelemetry layer] ", ["--otel"])):
+            out = subprocess.run([f"{target}/debug/{s}"] + extra, capture_output=True, text=True, timeout=120)
+            if out.returncode != 0:
+                failures.append(("C17-run-crashed", f"{regime}{s}: exit {out.returncode}: {out.stderr[-300:]}"))
+                continue
+            for line in out.stdout.splitlines():
+                m = re.match(r"RESULT (\d+) (\[.*\])$", line)
+                if m:
+                    k = int(m.group(1)); fl = json.loads(m.group(2)) if m.group(2) != "[]" else []
+                    results.setdefault(k, []).extend(regime + f for f in fl)
+                    if extra: otel_runs += 1
     for d in meta["definitions"]:
         k = d["k"]
         if k in results:
@@ -138,9 +142,9 @@ def main():
     ev = {"property_id": "C17", "tier": tier, "seed": int(os.environ.get("VERIF_SEED", "0")), "level": "exploration",
           "coverage": {"evaluations": nmeth + len(cols), "programs": len(meta["definitions"]) + len(cols),
                        "distinct_nontrivial": len(accepted),
-                       "definitions_accepted_and_run": len(accepted), "methods_called": nmeth,
+                       "definitions_accepted_and_run": len(accepted), "definition_runs_under_opentelemetry": otel_runs, "methods_called": nmeth,
                        "collision_candidates": col_out, "grid_definitions_rejected_at_compile_time": {str(k): v for k, v in rejected_defs.items()}, "pairs_uncovered": meta["pairs_uncovered"],
-                       "rule": "service definitions enumerated over {1-3 methods} x {arity 0-3} x {all-u32 | mixed types} x {unit,u32,tuple returns} x method-name pool (incl. leading/trailing/double underscores, mixed case, raw identifiers) x argument-name pool (incl. raw identifier and names used inside generated code) x {no attr, #[doc], #[cfg(all())], #[cfg(any())]} x {default, derive=[Clone,Hash], derive_serde=false}: quick = greedy pairwise cover of all dimension-value pairs, thorough = cover + 900 further grid points; each compiled against /repo and run over a real in-memory client/server pair: every method called with (1,2,3): exactly one implementor invocation of that method with those arguments in order and the request's trace id, the right value back, RequestName = '<Service>.<method>'; collision candidates each in a crate of their own: rejected at compile time or behave. distinct_nontrivial = accepted definitions executed",
+                       "rule": "service definitions enumerated over {1-3 methods} x {arity 0-3} x {all-u32 | mixed types} x {unit,u32,tuple returns} x method-name pool (incl. leading/trailing/double underscores, mixed case, raw identifiers) x argument-name pool (incl. raw identifier and names used inside generated code) x {no attr, #[doc], #[cfg(all())], #[cfg(any())]} x {default, derive=[Clone,Hash], derive_serde=false}: quick = greedy pairwise cover of all dimension-value pairs, thorough = cover + 900 further grid points; each compiled against /repo and run over a real in-memory client/server pair: every method called with (1,2,3): exactly one implementor invocation of that method with those arguments in order and the trace id the request carried on the wire (tapped at the server transport; without a subscriber that is the caller's; the whole grid runs a second time in a fresh process under a tracing-opentelemetry layer), the right value back, RequestName = '<Service>.<method>'; collision candidates each in a crate of their own: rejected at compile time or behave. distinct_nontrivial = accepted definitions executed",
                        "samples": [{"definition_0_source": meta["sample_source"]}],
                        "exhaustive": True, "known_findings_seen": seen},
           "assumptions": ["rustc and the in-memory transport are trusted; schedules are canonical (the property quantifies over programs)"],
